@@ -60,6 +60,10 @@ let parse (l : String.t) : op option =
   | ["sdetach"; k] -> Some (OSDetach (nat k))
   | ["sswap"; a; b] -> Some (OSSwap (nat a, nat b))
   | ["sdel"; k] -> Some (OSDel (nat k))
+  | ["smove"; k] -> Some (OSMoveCtor (nat k))
+  | ["smovea"; d; s] -> Some (OSMoveAssign (nat d, nat s))
+  | ["sbyval"; k] | ["sbyvalm"; k] -> Some (OSByVal (nat k))
+  | ["traits"] -> Some OTraits
   | _ -> None
 
 let show_ev = function
@@ -79,6 +83,7 @@ let show_out = function
   | OutView (V (_, _, len), txt) -> Printf.sprintf "w %s %s" (string_of_n len) (hex txt)
   | OutStr (k, s, None) -> Printf.sprintf "s %d null %s" (int_of_nat k) (string_of_n s.slen)
   | OutStr (k, s, Some buf) -> Printf.sprintf "s %d %s %s" (int_of_nat k) (string_of_n s.slen) (hex buf)
+  | OutTraits (a, b, c) -> Printf.sprintf "traits %d %d %d" (Bool.to_int a) (Bool.to_int b) (Bool.to_int c)
   | OutBad -> "bad-script"
 
 let show_err = function
